@@ -3,28 +3,33 @@ import Driver.Thrift2
 import Driver.Thrift3
 import Driver.Pb
 import Driver.Idl
+import Driver.Gen
 /-
   `pmodel`: reads request lines on stdin, prints the model's answer line for each.
 -/
 open Pilota
 
-def answerLine (line : String) : String :=
+def answerLine (docs : Driver.Gen.Docs) (line : String) : Driver.Gen.Docs × String :=
   let t := line.trimAscii.toString
-  if t.isEmpty || t.startsWith "#" then ""
+  if t.isEmpty || t.startsWith "#" then (docs, "")
   else match Sexp.parseLine t with
-    | none => "bad-request"
+    | none => (docs, "bad-request")
     | some items =>
+      match Driver.Gen.answer docs items with
+      | some r => r
+      | none => (docs,
       match [Driver.Thrift.answer, Driver.Thrift2.answer, Driver.Thrift3.answer, Driver.Pb.answer, Driver.Idl.answer].findSome? (· items) with
       | some a => a
-      | none => "bad-request"
+      | none => "bad-request")
 
-partial def loop (h : IO.FS.Stream) (out : IO.FS.Stream) : IO Unit := do
+partial def loop (h : IO.FS.Stream) (out : IO.FS.Stream) (docs : Driver.Gen.Docs) : IO Unit := do
   let line ← h.getLine
   if line.isEmpty then return ()
-  out.putStrLn (answerLine line)
-  loop h out
+  let (docs, a) := answerLine docs line
+  out.putStrLn a
+  loop h out docs
 
 def main : IO Unit := do
   let out ← IO.getStdout
-  loop (← IO.getStdin) out
+  loop (← IO.getStdin) out []
   out.flush
